@@ -646,6 +646,8 @@ Proof. reflexivity. Qed.
 (* 8. print = render . canon                                           *)
 (* ================================================================== *)
 
+Ltac norm_app := repeat progress (rewrite <- ?app_assoc; cbn [app]).
+
 Lemma items_render : forall st d pr cn l (first : bool),
   Forall (fun x => pr x = render (cn x)) l -> l <> [] ->
   (if first then @nil byte else sep_ws st) ++ p_items st d pr l ++ indent st d ++ [93] =
@@ -657,5 +659,572 @@ Proof.
   destruct t as [|y t'].
   - cbn [map trail deco_arr r_items]. rewrite <- !app_assoc. cbn [app]. reflexivity.
   - rewrite <- (IH false Ht) by discriminate.
-    cbn [map trail]. rewrite <- !app_assoc. cbn [app]. reflexivity.
+    cbn [map trail deco_arr app]. rewrite <- ?app_assoc. cbn [app]. rewrite <- ?app_assoc.
+    reflexivity.
 Qed.
+
+Lemma members_render : forall st utf8 d pr cn m (first : bool),
+  Forall (fun kv => Forall (char_ok utf8) (fst kv) /\ pr (snd kv) = render (cn (snd kv))) m ->
+  m <> [] ->
+  (if first then @nil byte else sep_ws st) ++ p_members st utf8 d pr m ++ indent st d ++ [125] =
+  r_members (deco_obj st d first
+               (map (fun kv => (map (canon_char utf8) (fst kv), cn (snd kv))) m)).
+Proof.
+  intros st utf8 d pr cn. induction m as [|[k x] t IH]; intros first HF Hne; [congruence|].
+  inversion HF as [|? ? [Hk Hx] Ht]; subst. cbn [fst snd] in Hk, Hx.
+  rewrite p_members_cons. cbn [map deco_obj fst snd]. rewrite r_members_cons, <- Hx.
+  rewrite <- print_string_render by assumption. unfold lead.
+  destruct t as [|y t'].
+  - cbn [map trail deco_obj r_members]. norm_app. reflexivity.
+  - rewrite <- (IH false Ht) by discriminate. destruct y as [k' y].
+    cbn [map trail deco_obj]. norm_app. reflexivity.
+Qed.
+
+Theorem print_render_eq : forall st utf8 v d, printable utf8 v ->
+  print_json_at st utf8 d v = render (canon st utf8 d v).
+Proof.
+  intros st utf8 v. induction v as [| b | s | n | m IH | l IH] using json_ind'; intros d Hp.
+  - reflexivity.
+  - destruct b; reflexivity.
+  - cbn [print_json_at canon render]. apply print_string_render. exact Hp.
+  - cbn [print_json_at canon render]. apply print_num_render. exact Hp.
+  - apply printable_obj in Hp. destruct Hp as [_ Hp].
+    destruct m as [|kv t]; [reflexivity|].
+    rewrite print_obj_eq.
+    change (canon st utf8 d (JObj (kv :: t))) with
+      (SObj (deco_obj st d true
+               (map (fun kv => (map (canon_char utf8) (fst kv), canon st utf8 (S d) (snd kv))) (kv :: t)))).
+    rewrite render_obj_eq. f_equal.
+    rewrite <- members_render with (pr := print_json_at st utf8 (S d)); [reflexivity| |discriminate].
+    rewrite Forall_forall in *. intros kv' Hin. destruct (Hp kv' Hin) as [Hk Hx].
+    split; [exact Hk|]. apply IH; assumption.
+  - apply printable_arr in Hp.
+    destruct l as [|x t]; [reflexivity|].
+    rewrite print_arr_eq.
+    change (canon st utf8 d (JArr (x :: t))) with
+      (SArr (deco_arr st d true (map (canon st utf8 (S d)) (x :: t)))).
+    rewrite render_arr_eq. f_equal.
+    rewrite <- items_render with (pr := print_json_at st utf8 (S d)); [reflexivity| |discriminate].
+    rewrite Forall_forall in *. intros x' Hin. apply IH; auto.
+Qed.
+
+(* ================================================================== *)
+(* 9. the canonical tree is well formed                                *)
+(* ================================================================== *)
+
+Lemma ws_ok_indent : forall st n, ws_ok (indent st n).
+Proof.
+  intros st n. destruct st; try constructor.
+  - reflexivity.
+  - induction n as [|n IH]; cbn [repeat concat app]; [constructor|].
+    constructor; [reflexivity|]. constructor; [reflexivity|]. exact IH.
+Qed.
+Lemma ws_ok_sep : forall st, ws_ok (sep_ws st).
+Proof. destruct st; repeat constructor. Qed.
+Lemma ws_ok_colon : forall st, ws_ok (colon_ws st).
+Proof. destruct st; repeat constructor. Qed.
+Lemma ws_ok_lead : forall st d first, ws_ok (lead st d first).
+Proof.
+  intros. unfold lead, ws_ok. apply Forall_app. split; [|apply ws_ok_indent].
+  destruct first; [constructor|apply ws_ok_sep].
+Qed.
+Lemma ws_ok_trail : forall A st d (more : list A), ws_ok (trail st d more).
+Proof. intros. destruct more; [apply ws_ok_indent|constructor]. Qed.
+
+Lemma w_items_cons : forall wb t wa more,
+  w_items ((wb, t, wa) :: more) = (ws_ok wb /\ wf t /\ ws_ok wa /\ w_items more).
+Proof. reflexivity. Qed.
+Lemma w_members_cons : forall wk k wc wb t wa more,
+  w_members ((wk, k, wc, (wb, t, wa)) :: more) =
+  (ws_ok wk /\ Forall schar_ok k /\ ws_ok wc /\ ws_ok wb /\ wf t /\ ws_ok wa /\ w_members more).
+Proof. reflexivity. Qed.
+
+Lemma deco_arr_wf : forall st d cn l first,
+  Forall (fun x : json => wf (cn x)) l -> w_items (deco_arr st d first (map cn l)).
+Proof.
+  intros st d cn. induction l as [|x t IH]; intros first H; [exact I|].
+  inversion H; subst. cbn [map deco_arr]. rewrite w_items_cons.
+  split; [apply ws_ok_lead|]. split; [assumption|]. split; [apply ws_ok_trail|]. apply IH; assumption.
+Qed.
+
+Lemma deco_obj_wf : forall st utf8 d cn m first,
+  Forall (fun kv : str * json => Forall (char_ok utf8) (fst kv) /\ wf (cn (snd kv))) m ->
+  w_members (deco_obj st d first (map (fun kv => (map (canon_char utf8) (fst kv), cn (snd kv))) m)).
+Proof.
+  intros st utf8 d cn. induction m as [|[k x] t IH]; intros first H; [exact I|].
+  inversion H as [|? ? [Hk Hx] Ht]; subst. cbn [fst snd] in Hk, Hx.
+  cbn [map deco_obj fst snd]. rewrite w_members_cons.
+  split; [apply ws_ok_lead|]. split; [apply canon_str_ok; assumption|].
+  split; [constructor|]. split; [apply ws_ok_colon|]. split; [assumption|].
+  split; [apply ws_ok_trail|]. apply IH; assumption.
+Qed.
+
+Lemma deco_obj_names : forall st utf8 d cn (m : list (str * json)) first,
+  map (fun m => str_val (snd (fst (fst m))))
+      (deco_obj st d first (map (fun kv => (map (canon_char utf8) (fst kv), cn (snd kv))) m))
+  = map fst m.
+Proof.
+  intros st utf8 d cn. induction m as [|[k x] t IH]; intros first; [reflexivity|].
+  cbn [map deco_obj fst snd]. rewrite canon_str_val, IH. reflexivity.
+Qed.
+
+Theorem canon_wf : forall st utf8 v d, printable utf8 v -> wf (canon st utf8 d v).
+Proof.
+  intros st utf8 v. induction v as [| b | s | n | m IH | l IH] using json_ind'; intros d Hp.
+  - exact I.
+  - destruct b; exact I.
+  - cbn [canon wf]. apply canon_str_ok. exact Hp.
+  - cbn [canon wf]. cbn [printable] in Hp. split; [apply canon_num_ok; exact Hp|].
+    rewrite canon_num_val by exact Hp. discriminate.
+  - apply printable_obj in Hp. destruct Hp as [Hnd Hp].
+    destruct m as [|kv t]; [constructor|].
+    change (canon st utf8 d (JObj (kv :: t))) with
+      (SObj (deco_obj st d true
+               (map (fun kv => (map (canon_char utf8) (fst kv), canon st utf8 (S d) (snd kv))) (kv :: t)))).
+    rewrite wf_obj_eq. split; [destruct kv; discriminate|]. split.
+    + rewrite deco_obj_names. exact Hnd.
+    + apply deco_obj_wf. rewrite Forall_forall in *. intros kv' Hin.
+      destruct (Hp kv' Hin) as [Hk Hx]. split; [exact Hk|]. apply IH; assumption.
+  - apply printable_arr in Hp.
+    destruct l as [|x t]; [constructor|].
+    change (canon st utf8 d (JArr (x :: t))) with
+      (SArr (deco_arr st d true (map (canon st utf8 (S d)) (x :: t)))).
+    rewrite wf_arr_eq. split; [discriminate|].
+    apply deco_arr_wf. rewrite Forall_forall in *. intros x' Hin. apply IH; auto.
+Qed.
+
+(* ================================================================== *)
+(* 10. the canonical tree denotes the value printed                    *)
+(* ================================================================== *)
+
+Lemma v_items_cons : forall wb t wa more,
+  v_items ((wb, t, wa) :: more) =
+  match value_of t, v_items more with Some v, Some vs => Some (v :: vs) | _, _ => None end.
+Proof. reflexivity. Qed.
+Lemma v_members_cons : forall wk k wc wb t wa more,
+  v_members ((wk, k, wc, (wb, t, wa)) :: more) =
+  match value_of t, v_members more with Some v, Some vs => Some ((str_val k, v) :: vs) | _, _ => None end.
+Proof. reflexivity. Qed.
+
+Lemma deco_arr_value : forall st d cn l first,
+  Forall (fun x : json => value_of (cn x) = Some x) l ->
+  v_items (deco_arr st d first (map cn l)) = Some l.
+Proof.
+  intros st d cn. induction l as [|x t IH]; intros first H; [reflexivity|].
+  inversion H as [|? ? Hx Ht]; subst. cbn [map deco_arr].
+  rewrite v_items_cons, Hx, (IH false Ht). reflexivity.
+Qed.
+
+Lemma deco_obj_value : forall st utf8 d cn (m : list (str * json)) first,
+  Forall (fun kv => value_of (cn (snd kv)) = Some (snd kv)) m ->
+  v_members (deco_obj st d first (map (fun kv => (map (canon_char utf8) (fst kv), cn (snd kv))) m))
+  = Some m.
+Proof.
+  intros st utf8 d cn. induction m as [|[k x] t IH]; intros first H; [reflexivity|].
+  inversion H as [|? ? Hx Ht]; subst. cbn [snd] in Hx. cbn [map deco_obj fst snd].
+  rewrite v_members_cons, Hx, (IH false Ht), canon_str_val. reflexivity.
+Qed.
+
+Theorem canon_value : forall st utf8 v d, printable utf8 v ->
+  value_of (canon st utf8 d v) = Some v.
+Proof.
+  intros st utf8 v. induction v as [| b | s | n | m IH | l IH] using json_ind'; intros d Hp.
+  - reflexivity.
+  - destruct b; reflexivity.
+  - cbn [canon value_of]. rewrite canon_str_val. reflexivity.
+  - cbn [canon value_of]. cbn [printable] in Hp. rewrite canon_num_val by exact Hp. reflexivity.
+  - apply printable_obj in Hp. destruct Hp as [_ Hp].
+    destruct m as [|kv t]; [reflexivity|].
+    change (canon st utf8 d (JObj (kv :: t))) with
+      (SObj (deco_obj st d true
+               (map (fun kv => (map (canon_char utf8) (fst kv), canon st utf8 (S d) (snd kv))) (kv :: t)))).
+    rewrite value_obj_eq, deco_obj_value; [reflexivity|].
+    rewrite Forall_forall in *. intros kv' Hin. apply IH; [assumption|]. apply (Hp kv' Hin).
+  - apply printable_arr in Hp.
+    destruct l as [|x t]; [reflexivity|].
+    change (canon st utf8 d (JArr (x :: t))) with
+      (SArr (deco_arr st d true (map (canon st utf8 (S d)) (x :: t)))).
+    rewrite value_arr_eq, deco_arr_value; [reflexivity|].
+    rewrite Forall_forall in *. intros x' Hin. apply IH; auto.
+Qed.
+
+Theorem print_is_render : forall st utf8 v d, printable utf8 v ->
+  print_json_at st utf8 d v = render (canon st utf8 d v) /\
+  wf (canon st utf8 d v) /\
+  value_of (canon st utf8 d v) = Some v.
+Proof.
+  intros. split; [apply print_render_eq; assumption|].
+  split; [apply canon_wf; assumption|apply canon_value; assumption].
+Qed.
+
+(* ================================================================== *)
+(* 11. whitespace shape of the three styles                            *)
+(* ================================================================== *)
+
+Fixpoint ws_all (P : ws -> Prop) (t : sjson) {struct t} : Prop :=
+  match t with
+  | SNull | STrue | SFalse | SNum _ | SStr _ => True
+  | SArr0 w | SObj0 w => P w
+  | SArr items =>
+      (fix go (items : list (ws * sjson * ws)) : Prop :=
+         match items with
+         | [] => True
+         | (wb, t, wa) :: more => P wb /\ ws_all P t /\ P wa /\ go more
+         end) items
+  | SObj ms =>
+      (fix go (ms : list (ws * list schar * ws * (ws * sjson * ws))) : Prop :=
+         match ms with
+         | [] => True
+         | (wk, k, wc, (wb, t, wa)) :: more =>
+             P wk /\ P wc /\ P wb /\ ws_all P t /\ P wa /\ go more
+         end) ms
+  end.
+
+Definition a_items (P : ws -> Prop) :=
+  fix go (items : list (ws * sjson * ws)) : Prop :=
+    match items with
+    | [] => True
+    | (wb, t, wa) :: more => P wb /\ ws_all P t /\ P wa /\ go more
+    end.
+Definition a_members (P : ws -> Prop) :=
+  fix go (ms : list (ws * list schar * ws * (ws * sjson * ws))) : Prop :=
+    match ms with
+    | [] => True
+    | (wk, k, wc, (wb, t, wa)) :: more =>
+        P wk /\ P wc /\ P wb /\ ws_all P t /\ P wa /\ go more
+    end.
+Lemma ws_all_arr_eq : forall P items, ws_all P (SArr items) = a_items P items.
+Proof. reflexivity. Qed.
+Lemma ws_all_obj_eq : forall P ms, ws_all P (SObj ms) = a_members P ms.
+Proof. reflexivity. Qed.
+Lemma a_items_cons : forall P wb t wa more,
+  a_items P ((wb, t, wa) :: more) = (P wb /\ ws_all P t /\ P wa /\ a_items P more).
+Proof. reflexivity. Qed.
+Lemma a_members_cons : forall P wk k wc wb t wa more,
+  a_members P ((wk, k, wc, (wb, t, wa)) :: more) =
+  (P wk /\ P wc /\ P wb /\ ws_all P t /\ P wa /\ a_members P more).
+Proof. reflexivity. Qed.
+
+Section WsAll.
+Variables (P : ws -> Prop) (st : jstyle).
+Hypothesis P_nil : P [].
+Hypothesis P_lead : forall d first, P (lead st d first).
+Hypothesis P_indent : forall d, P (indent st d).
+Hypothesis P_colon : P (colon_ws st).
+
+Lemma P_trail : forall A d (more : list A), P (trail st d more).
+Proof. intros. destruct more; [apply P_indent|apply P_nil]. Qed.
+
+Lemma deco_arr_ws_all : forall d cn (l : list json) first,
+  Forall (fun x => ws_all P (cn x)) l -> a_items P (deco_arr st d first (map cn l)).
+Proof.
+  intros d cn. induction l as [|x t IH]; intros first H; [exact I|].
+  inversion H; subst. cbn [map deco_arr]. rewrite a_items_cons.
+  split; [apply P_lead|]. split; [assumption|]. split; [apply P_trail|]. apply IH; assumption.
+Qed.
+
+Lemma deco_obj_ws_all : forall utf8 d cn (m : list (str * json)) first,
+  Forall (fun kv => ws_all P (cn (snd kv))) m ->
+  a_members P (deco_obj st d first (map (fun kv => (map (canon_char utf8) (fst kv), cn (snd kv))) m)).
+Proof.
+  intros utf8 d cn. induction m as [|[k x] t IH]; intros first H; [exact I|].
+  inversion H as [|? ? Hx Ht]; subst. cbn [snd] in Hx. cbn [map deco_obj fst snd].
+  rewrite a_members_cons.
+  split; [apply P_lead|]. split; [apply P_nil|]. split; [apply P_colon|].
+  split; [assumption|]. split; [apply P_trail|]. apply IH; assumption.
+Qed.
+
+Theorem canon_ws_all : forall utf8 v d, ws_all P (canon st utf8 d v).
+Proof.
+  intros utf8 v. induction v as [| b | s | n | m IH | l IH] using json_ind'; intros d.
+  - exact I.
+  - destruct b; exact I.
+  - exact I.
+  - exact I.
+  - destruct m as [|kv t]; [exact P_nil|].
+    change (canon st utf8 d (JObj (kv :: t))) with
+      (SObj (deco_obj st d true
+               (map (fun kv => (map (canon_char utf8) (fst kv), canon st utf8 (S d) (snd kv))) (kv :: t)))).
+    rewrite ws_all_obj_eq. apply deco_obj_ws_all.
+    rewrite Forall_forall in *. intros kv' Hin. apply IH; assumption.
+  - destruct l as [|x t]; [exact P_nil|].
+    change (canon st utf8 d (JArr (x :: t))) with
+      (SArr (deco_arr st d true (map (canon st utf8 (S d)) (x :: t)))).
+    rewrite ws_all_arr_eq. apply deco_arr_ws_all.
+    rewrite Forall_forall in *. intros x' Hin. apply IH; assumption.
+Qed.
+End WsAll.
+
+(* Consise: no whitespace at all *)
+Theorem concise_no_ws : forall utf8 v d, ws_all (fun w => w = []) (canon Consise utf8 d v).
+Proof.
+  intros. apply canon_ws_all; try reflexivity.
+  intros d' first. destruct first; reflexivity.
+Qed.
+
+(* OneLine: nothing but single blanks (after ',' and ':') *)
+Theorem oneline_ws : forall utf8 v d, ws_all (fun w => w = [] \/ w = [32]) (canon OneLine utf8 d v).
+Proof.
+  intros. apply canon_ws_all; auto.
+  intros d' first. destruct first; auto.
+Qed.
+
+(* Pretty: a single blank after ':', otherwise a line feed followed by two blanks per level *)
+Theorem pretty_ws : forall utf8 v d,
+  ws_all (fun w => w = [] \/ w = [32] \/ exists k, w = 10 :: concat (repeat [32; 32] k))
+         (canon Pretty utf8 d v).
+Proof.
+  intros. apply canon_ws_all; auto.
+  - intros d' first. right. right. exists (S d'). destruct first; reflexivity.
+  - intros d'. right. right. exists d'. reflexivity.
+Qed.
+
+(* ================================================================== *)
+(* 12. OneLine and Consise rows contain no line break                  *)
+(* ================================================================== *)
+
+Definition nl (b : byte) : Prop := b <> 10 /\ b <> 13.
+
+Lemma digit_nl : forall b, is_digit b = true -> nl b.
+Proof. intros b H. unfold is_digit in H. unfold nl. lia. Qed.
+
+Lemma digits_nl : forall ds, Forall (fun b => is_digit b = true) ds -> Forall nl ds.
+Proof. intros ds H. eapply Forall_impl; [|exact H]. apply digit_nl. Qed.
+
+Lemma utf8_nl : forall c, c <> 10 -> c <> 13 -> Forall nl (utf8_encode_char c).
+Proof.
+  intros c H1 H2. unfold utf8_encode_char.
+  destruct (N.ltb_spec c 128); [repeat constructor; assumption|].
+  destruct (N.ltb_spec c 2048); [repeat constructor; lia|].
+  destruct (N.ltb_spec c 65536); repeat constructor; lia.
+Qed.
+
+Lemma hex_char_nl : forall u d, nl (hex_char u d).
+Proof.
+  intros u d. unfold hex_char, nl. destruct (N.ltb_spec d 10); [lia|]. destruct u; lia.
+Qed.
+
+Lemma assoc_esc_ge : forall c l, assoc_esc c print_escapes = Some l -> 34 <= l.
+Proof.
+  intros c l. unfold print_escapes. cbn [assoc_esc].
+  repeat match goal with |- context [N.eqb ?a ?b] => destruct (N.eqb a b) end;
+    intros H; inversion H; lia.
+Qed.
+
+Lemma print_char_nl : forall utf8 c, char_ok utf8 c -> Forall nl (print_char utf8 c).
+Proof.
+  intros utf8 c Hok. unfold print_char.
+  destruct (esc_cases c) as [[He [l [Ha Hl]]]|[He [Ha [_ [_ [N1 N2]]]]]]; rewrite Ha.
+  - pose proof (assoc_esc_ge _ _ Ha). repeat constructor; unfold nl; lia.
+  - change ((utf8 && (32 <=? c)) || ((32 <=? c) && (c <=? 126))) with (is_lit utf8 c).
+    destruct (is_lit utf8 c) eqn:Hlit.
+    + apply utf8_nl; assumption.
+    + rewrite hex4_small by (eapply not_lit_small; eauto).
+      repeat constructor; try apply hex_char_nl; unfold nl; lia.
+Qed.
+
+Lemma print_string_nl : forall utf8 s, Forall (char_ok utf8) s -> Forall nl (print_string utf8 s).
+Proof.
+  intros utf8 s H. unfold print_string. constructor; [unfold nl; lia|].
+  apply Forall_app. split; [|repeat constructor; unfold nl; lia].
+  induction H as [|c s Hc Hs IH]; [constructor|].
+  cbn [flat_map]. apply Forall_app. split; [apply print_char_nl; assumption|exact IH].
+Qed.
+
+Lemma digits_of_N_nl : forall n, Forall nl (digits_of_N n).
+Proof. intros. apply digits_nl. eapply dig_rep_digits. apply digits_of_N_rep. Qed.
+
+Lemma render_num_nl : forall n, snum_ok n -> Forall nl (render_num n).
+Proof.
+  intros [neg i fr ex] [[[_ Hi] _] [Hf He]]. unfold render_num.
+  cbn [sn_neg sn_int sn_frac sn_exp] in *.
+  apply Forall_app. split; [destruct neg; repeat constructor; unfold nl; lia|].
+  apply Forall_app. split; [apply digits_nl; assumption|].
+  apply Forall_app. split.
+  - destruct fr as [f|]; [|constructor]. constructor; [unfold nl; lia|].
+    apply digits_nl. apply Hf.
+  - destruct ex as [[[up sg] e]|]; [|constructor].
+    constructor; [destruct up; unfold nl; lia|].
+    apply Forall_app. split; [|apply digits_nl; apply He].
+    destruct sg as [[|]|]; repeat constructor; unfold nl; lia.
+Qed.
+
+Lemma print_num_nl : forall n, num_ok n -> Forall nl (print_num n).
+Proof.
+  intros [n|z|f] H; cbn [print_num num_ok] in *.
+  - apply digits_of_N_nl.
+  - destruct z; cbn [digits_of_Z].
+    + repeat constructor; unfold nl; lia.
+    + apply digits_of_N_nl.
+    + constructor; [unfold nl; lia|apply digits_of_N_nl].
+  - destruct (flt_okb_spec f H) as [n [_ [O [R _]]]]. rewrite <- R. apply render_num_nl; assumption.
+Qed.
+
+Lemma indent_nl : forall st n, st <> Pretty -> Forall nl (indent st n).
+Proof. intros st n H. destruct st; [constructor|constructor|congruence]. Qed.
+Lemma sep_nl : forall st, Forall nl (sep_ws st).
+Proof. destruct st; repeat constructor; unfold nl; lia. Qed.
+Lemma colon_ws_nl : forall st, Forall nl (colon_ws st).
+Proof. destruct st; repeat constructor; unfold nl; lia. Qed.
+
+Lemma p_items_nl : forall st d pr l, st <> Pretty ->
+  Forall (fun x => Forall nl (pr x)) l -> Forall nl (p_items st d pr l).
+Proof.
+  intros st d pr l Hst. induction l as [|x t IH]; intros H; [constructor|].
+  inversion H as [|? ? Hx Ht]; subst. rewrite p_items_cons.
+  apply Forall_app. split; [apply indent_nl; assumption|].
+  apply Forall_app. split; [assumption|].
+  destruct t as [|y t']; [constructor|].
+  constructor; [unfold nl; lia|]. apply Forall_app. split; [apply sep_nl|apply IH; assumption].
+Qed.
+
+Lemma p_members_nl : forall st utf8 d pr m, st <> Pretty ->
+  Forall (fun kv => Forall (char_ok utf8) (fst kv) /\ Forall nl (pr (snd kv))) m ->
+  Forall nl (p_members st utf8 d pr m).
+Proof.
+  intros st utf8 d pr m Hst. induction m as [|[k x] t IH]; intros H; [constructor|].
+  inversion H as [|? ? [Hk Hx] Ht]; subst. cbn [fst snd] in Hk, Hx. rewrite p_members_cons.
+  apply Forall_app. split; [apply indent_nl; assumption|].
+  apply Forall_app. split; [apply print_string_nl; assumption|].
+  constructor; [unfold nl; lia|].
+  apply Forall_app. split; [apply colon_ws_nl|].
+  apply Forall_app. split; [assumption|].
+  destruct t as [|y t']; [constructor|].
+  constructor; [unfold nl; lia|]. apply Forall_app. split; [apply sep_nl|apply IH; assumption].
+Qed.
+
+Theorem print_no_linebreak : forall st utf8 v d, st <> Pretty -> printable utf8 v ->
+  Forall nl (print_json_at st utf8 d v).
+Proof.
+  intros st utf8 v d Hst. revert d.
+  induction v as [| b | s | n | m IH | l IH] using json_ind'; intros d Hp.
+  - repeat constructor; unfold nl; lia.
+  - destruct b; repeat constructor; unfold nl; lia.
+  - apply print_string_nl. exact Hp.
+  - apply print_num_nl. exact Hp.
+  - apply printable_obj in Hp. destruct Hp as [_ Hp].
+    destruct m as [|kv t]; [repeat constructor; unfold nl; lia|].
+    rewrite print_obj_eq. constructor; [unfold nl; lia|].
+    apply Forall_app. split.
+    + apply p_members_nl; [assumption|]. rewrite Forall_forall in *. intros kv' Hin.
+      destruct (Hp kv' Hin) as [Hk Hx]. split; [exact Hk|]. apply IH; assumption.
+    + apply Forall_app. split; [apply indent_nl; assumption|repeat constructor; unfold nl; lia].
+  - apply printable_arr in Hp.
+    destruct l as [|x t]; [repeat constructor; unfold nl; lia|].
+    rewrite print_arr_eq. constructor; [unfold nl; lia|].
+    apply Forall_app. split.
+    + apply p_items_nl; [assumption|]. rewrite Forall_forall in *. intros x' Hin. apply IH; auto.
+    + apply Forall_app. split; [apply indent_nl; assumption|repeat constructor; unfold nl; lia].
+Qed.
+
+Lemma nl_not_in : forall l, Forall nl l -> ~ In 10 l /\ ~ In 13 l.
+Proof.
+  intros l H. rewrite Forall_forall in H.
+  split; intros Hin; destruct (H _ Hin) as [H1 H2]; congruence.
+Qed.
+
+Theorem oneline_no_linebreak : forall utf8 v d, printable utf8 v ->
+  ~ In 10 (print_json_at OneLine utf8 d v) /\ ~ In 13 (print_json_at OneLine utf8 d v).
+Proof. intros. apply nl_not_in, print_no_linebreak; [discriminate|assumption]. Qed.
+
+Theorem concise_no_linebreak : forall utf8 v d, printable utf8 v ->
+  ~ In 10 (print_json_at Consise utf8 d v) /\ ~ In 13 (print_json_at Consise utf8 d v).
+Proof. intros. apply nl_not_in, print_no_linebreak; [discriminate|assumption]. Qed.
+
+(* ================================================================== *)
+(* 12b. the exact annotations, by depth                                *)
+(* ================================================================== *)
+
+Lemma canon_arr_cons : forall st utf8 d x t,
+  canon st utf8 d (JArr (x :: t)) = SArr (deco_arr st d true (map (canon st utf8 (S d)) (x :: t))).
+Proof. reflexivity. Qed.
+Lemma canon_obj_cons : forall st utf8 d kv t,
+  canon st utf8 d (JObj (kv :: t)) =
+  SObj (deco_obj st d true
+          (map (fun kv => (map (canon_char utf8) (fst kv), canon st utf8 (S d) (snd kv))) (kv :: t))).
+Proof. reflexivity. Qed.
+
+(* Pretty, container at depth d: a line feed and 2*(d+1) blanks before every element / member name,
+   a line feed and 2*d blanks after the last element (before the closing bracket), nothing else
+   except the blank after ':' *)
+Lemma lead_pretty : forall d first, lead Pretty d first = 10 :: concat (repeat [32; 32] (S d)).
+Proof. intros. destruct first; reflexivity. Qed.
+Lemma trail_pretty : forall A d (more : list A),
+  trail Pretty d more = match more with [] => 10 :: concat (repeat [32; 32] d) | _ => [] end.
+Proof. reflexivity. Qed.
+(* OneLine: a blank before every element but the first, nothing after *)
+Lemma lead_oneline : forall d first, lead OneLine d first = if first then [] else [32].
+Proof. intros. destruct first; reflexivity. Qed.
+Lemma trail_oneline : forall A d (more : list A), trail OneLine d more = [].
+Proof. intros. destruct more; reflexivity. Qed.
+
+(* ================================================================== *)
+(* 13. the hypotheses are satisfiable                                  *)
+(* ================================================================== *)
+
+Lemma char_ok_bmp : forall utf8 c, is_scalar c = true -> c < 65536 -> char_ok utf8 c.
+Proof. intros utf8 c H1 H2. split; auto. Qed.
+
+(* 0.1, 2.5, 5e-324 (smallest subnormal), 1.7976931348623157e308 (largest finite), -2.5 *)
+Example flt_ok_0_1 : flt_okb 4591870180066957722 = true.
+Proof. vm_compute. reflexivity. Qed.
+Example flt_ok_2_5 : flt_okb 4612811918334230528 = true.
+Proof. vm_compute. reflexivity. Qed.
+Example flt_ok_min : flt_okb 1 = true.
+Proof. vm_compute. reflexivity. Qed.
+Example flt_ok_max : flt_okb 9218868437227405311 = true.
+Proof. vm_compute. reflexivity. Qed.
+Example flt_ok_neg_2_5 : flt_okb 13836183955189006336 = true.
+Proof. vm_compute. reflexivity. Qed.
+(* the side condition does exclude what it should: NaN, +inf, and the double 3.0
+   (which prints as "3" and reads back as the integer 3) *)
+Example flt_ok_nan : flt_okb 9221120237041090560 = false.
+Proof. vm_compute. reflexivity. Qed.
+Example flt_ok_inf : flt_okb 9218868437227405312 = false.
+Proof. vm_compute. reflexivity. Qed.
+Example flt_ok_3_0 : flt_okb 4613937818241073152 = false.
+Proof. vm_compute. reflexivity. Qed.
+
+Example snum_of_text_ex :
+  snum_of_text [45; 50; 46; 53] =
+  Some {| sn_neg := true; sn_int := [50]; sn_frac := Some [53]; sn_exp := None |}.
+Proof. vm_compute. reflexivity. Qed.
+
+(* {"a\"": ["\"\né/", 0, 18446744073709551615, -9223372036854775808, 0.1, [], {}], "b": null} *)
+Definition sample : json :=
+  JObj [([97; 34], JArr [JStr [34; 10; 233; 47]; JNum (NPos 0); JNum (NPos 18446744073709551615);
+                         JNum (NNeg (-9223372036854775808)); JNum (NFlt 4591870180066957722);
+                         JArr []; JObj []]);
+        ([98], JNull)].
+
+Example sample_printable : forall utf8, printable utf8 sample.
+Proof.
+  intros utf8. cbn [printable sample num_ok map fst snd]. repeat split;
+    try lia; try exact flt_ok_0_1;
+    try (repeat (constructor; try (apply char_ok_bmp; reflexivity)); fail).
+  constructor; [|constructor; [|constructor]].
+  - intros [H|[]]. discriminate.
+  - intros [].
+Qed.
+
+Example sample_oneline :
+  print_json_at OneLine false 0 sample =
+  [123; 34; 97; 92; 34; 34; 58; 32; 91; 34; 92; 34; 92; 110; 92; 117; 48; 48; 101; 57; 92; 47; 34;
+   44; 32; 48; 44; 32; 49; 56; 52; 52; 54; 55; 52; 52; 48; 55; 51; 55; 48; 57; 53; 53; 49; 54; 49;
+   53; 44; 32; 45; 57; 50; 50; 51; 51; 55; 50; 48; 51; 54; 56; 53; 52; 55; 55; 53; 56; 48; 56; 44;
+   32; 48; 46; 49; 44; 32; 91; 93; 44; 32; 123; 125; 93; 44; 32; 34; 98; 34; 58; 32; 110; 117; 108;
+   108; 125].
+Proof. vm_compute. reflexivity. Qed.
+
+Example sample_pretty_utf8 :
+  print_json_at Pretty true 0 sample = render (canon Pretty true 0 sample) /\
+  value_of (canon Pretty true 0 sample) = Some sample.
+Proof. vm_compute. split; reflexivity. Qed.
+
+Print Assumptions print_is_render.
+Print Assumptions concise_no_ws.
+Print Assumptions oneline_ws.
+Print Assumptions pretty_ws.
+Print Assumptions oneline_no_linebreak.
+Print Assumptions concise_no_linebreak.
+Print Assumptions sample_printable.
